@@ -237,6 +237,8 @@ def c08() -> int:
     fsx(c, RES + ({"variant": "core"},), ("hivemc.bundles", "c08", {}), K=2 if quick else 3, H=7 if quick else 9,
         needs=["default:DispatchTrip>ServicingTrip", "default:ServicingTrip>Idle", "env:R"])
     fsx(c, REQ + ({},), ("hivemc.bundles", "c08", {}), K=3 if quick else 4, H=8 if quick else 10)
+    # two requests with the SAME origin cell (r2, r3), admitted in one step or one after the other
+    fsx(c, REQ + ({"requests": ["r2", "r3", "r0"], "name": "W-req/same-origin"},), ("hivemc.bundles", "c08", {}), K=3, H=5 if quick else 7)
     fsx(c, GRID + ({},), ("hivemc.bundles", "c08", {}), K=2 if quick else 3, H=9 if quick else 11)
     auto_worlds(c, "c08", quick, grid=True)
     c.assumptions += ["re-adding an id that is already present is outside the alphabet (the API gives it no meaning)"]
